@@ -83,7 +83,8 @@ class Engine(object):
         s.maxsteps = maxsteps
         s.concrete_inputs = concrete_inputs      # list of ints: nondet returns these (validation mode)
         s.solver = z3.Solver()
-        s.solver.set('timeout', timeout_ms)
+        s.solver.set('timeout', min(timeout_ms, 10000))
+        s.timeout_ms = timeout_ms; s.nq_fallback = 0
         s.solver_pc = []
         s.globals = {}
         s.nq = 0; s.tq = 0.0; s.nq_sat = 0; s.nq_unsat = 0; s.nq_unknown = 0
@@ -136,7 +137,20 @@ class Engine(object):
         elif r == z3.unsat:
             res = 'unsat'; s.nq_unsat += 1
         else:
-            res = 'unknown'; s.nq_unknown += 1
+            # the incremental core gave up: retry once with a fresh one-shot solver (bit-blasting tactic pipeline)
+            s2 = z3.Solver()
+            s2.set('timeout', s.timeout_ms)
+            s2.add(*s.table_axioms); s2.add(*st.pc)
+            if extra is not None: s2.add(extra)
+            r = s2.check()
+            s.nq_fallback += 1
+            if r == z3.sat:
+                m = s2.model() if want_model else None
+                res = 'sat'; s.nq_sat += 1
+            elif r == z3.unsat:
+                res = 'unsat'; s.nq_unsat += 1
+            else:
+                res = 'unknown'; s.nq_unknown += 1
         if extra is not None:
             s.solver.pop()
         s.nq += 1; s.tq += time.time() - t
@@ -410,6 +424,10 @@ class Engine(object):
                 # partially initialised: keep defined bytes, undefined ones become fresh unconstrained bytes
                 s.ubnote(st, 'load of partially uninitialised %d-byte value' % n)
                 cells = [s.fresh(st, 8) if c is None else c for c in cells]
+            if any(c.__class__ is tuple and c[0].__class__ in (Ptr, FnPtr) for c in cells):
+                # part of a stored pointer read as data (e.g. the inactive view of a union): numeric address bits
+                # are not modelled -> indeterminate value
+                return Undef(w)
             parts = [s.byte_expr(c) for c in cells]
             v = s.S(z3.Concat(*reversed(parts))) if n > 1 else parts[0]
             if z3.is_bv_value(v): v = v.as_long()
@@ -435,6 +453,8 @@ class Engine(object):
                 return Undef(64)
             # bytes that are data, read as a pointer (e.g. the inactive member of a union): an integer-valued
             # pointer into no object; any dereference is reported
+            if any(c.__class__ is tuple and c[0].__class__ in (Ptr, FnPtr) for c in cells):
+                return Undef(64)
             parts = [s.byte_expr(c) for c in cells]
             return Ptr(0, z3.simplify(z3.Concat(*reversed(parts))))
         if cls == 'f':
@@ -748,7 +768,9 @@ class Engine(object):
             s.record_violation(st, v.kind, v.msg, v.model)
             s.end_path(st, 'violation')
         except Inconclusive as e:
-            s.inconclusive.append("%s @ %s" % (e, s.where(st)))
+            try: iv = [x[2] for x in s.input_values(st, s.model_of(st))][:24]
+            except Exception: iv = []
+            s.inconclusive.append("%s @ %s inputs=%s" % (e, s.where(st), iv))
             s.end_path(st, 'inconclusive')
         except z3.Z3Exception as e:
             s.inconclusive.append("z3 exception %s @ %s" % (e, s.where(st)))
@@ -1086,12 +1108,12 @@ def icmp(e, st, pred, w, a, b):
         if a.obj != b.obj:
             if pred == 'eq': return 0
             if pred == 'ne': return 1
-            if a.obj == 0 or b.obj == 0:
-                # comparisons against small integers / null: objects live at "high" addresses
-                x = a.off if a.obj == 0 else None; y = b.off if b.obj == 0 else None
-                if pred in ('ugt', 'uge'): return 1 if y is not None else 0
-                if pred in ('ult', 'ule'): return 1 if x is not None else 0
-            raise Violation('memory', "relational comparison of pointers into different objects")
+            # Different objects: the address order is layout dependent.  The engine fixes one legal layout - objects
+            # in allocation order, null lowest - so that idioms such as (p >= base && p < base + n) evaluate as on a
+            # flat address space; recorded as a note, not a violation.
+            e.ubnote(st, 'relational comparison of pointers into different objects (resolved by allocation order)')
+            lt = a.obj < b.obj
+            return 1 if {'ult': lt, 'ule': lt, 'ugt': not lt, 'uge': not lt, 'slt': lt, 'sle': lt, 'sgt': not lt, 'sge': not lt}[pred] else 0
         a = a.off; b = b.off; w = 64
         if a.__class__ is int: a &= mask(64)
         if b.__class__ is int: b &= mask(64)
